@@ -60,6 +60,15 @@ Definition BeamSplitter (ratio ph : R) (i j : nat) : C :=
   | _, _ => C0
   end.
 
+(* BeamSplitter(ratio, t, phase) with an explicit power transmission t (lossy when ratio + t < 1) *)
+Definition bs_tt (t ph : R) : C := cscale (sqrt t) (cis (2 * PI * ph)).
+Definition BeamSplitterT (ratio t ph : R) (i j : nat) : C :=
+  match i, j with
+  | 0%nat, 2%nat | 1%nat, 3%nat | 2%nat, 0%nat | 3%nat, 1%nat => bs_tt t ph
+  | 0%nat, 3%nat | 1%nat, 2%nat | 2%nat, 1%nat | 3%nat, 0%nat => bs_c ratio ph
+  | _, _ => C0
+  end.
+
 (* Splitter1x2: 1/sqrt 2 between a0 and b0, b1 *)
 Definition Splitter1x2 (i j : nat) : C :=
   match i, j with
@@ -164,6 +173,14 @@ Theorem beamsplitter_lossless ratio ph : 0 <= ratio <= 1 ->
 Proof.
   intros H. destruct (beamsplitter_powers ratio ph H) as [E1 E2]. split; [lra|].
   unfold bs_t, bs_c, caddc, cmulc, cconjc, cscale, cis; simpl. f_equal; ring.
+Qed.
+
+(* explicit transmission: the bar power is t — also t = 0 — and the cross power is the ratio *)
+Theorem beamsplitter_t_powers ratio t ph : 0 <= ratio -> 0 <= t ->
+  cabs2 (bs_tt t ph) = t /\ cabs2 (bs_c ratio ph) = ratio.
+Proof.
+  intros H0 H1. unfold bs_tt, bs_c. rewrite cabs2_cscale, cabs2_cmulc, cis_abs2. unfold cabs2; simpl.
+  pose proof (sqrt_sqrt ratio H0). pose proof (sqrt_sqrt t H1). split; nra.
 Qed.
 
 (* 1x2 splitter: 50/50 *)
